@@ -224,10 +224,10 @@ Proof.
 Qed.
 
 Lemma io_propagates_spec s c : io_propagates s c = true <-> site_returns_error s c.
-Proof. apply propagates_spec. Qed.
+Proof. unfold io_propagates, site_returns_error. exact (propagates_spec VFail (mpi2nc c) s). Qed.
 
 Lemma link_propagates_spec l : link_propagates l = true <-> link_returns_error l.
-Proof. apply propagates_spec. Qed.
+Proof. unfold link_propagates, link_returns_error. exact (propagates_spec VErr 0 l). Qed.
 
 (* ------------------------------------------------------------------------------------------ *)
 (** * 5. Call graph: a closed set of functions contains every caller *)
@@ -323,34 +323,118 @@ Proof.
   intros H. unfold class_mem. apply existsb_exists. exists c. split; [exact H | apply String.eqb_refl].
 Qed.
 
-(* full property from: every class propagates in the function; the function's upward closure R is
-   closed; no bad link is called from R *)
-Lemma no_silent_drop_intro (s : site) (R : list string) :
-  forallb (io_propagates s) all_classes = true ->
-  up_closed link_sites (s_func s) R = true ->
-  forallb (fun l => negb (str_mem (s_callee l) R) || negb (str_mem (s_id l) bad_link_ids)) link_sites = true ->
-  no_silent_drop link_sites s.
-Proof.
-  intros Hio Hcl Hnb c _. split.
-  - apply io_propagates_spec. revert c. apply forall_classes. exact Hio.
-  - intros l [Hin Hup]. apply links_propagate_except_bad; [exact Hin |].
-    pose proof (up_closed_sound _ _ _ Hcl _ Hup) as HR.
-    rewrite forallb_forall in Hnb. specialize (Hnb _ Hin).
-    apply orb_true_iff in Hnb. destruct Hnb as [H1 | H2].
-    + rewrite HR in H1. discriminate.
-    + intros Hbad. apply str_mem_In in Hbad. rewrite Hbad in H2. discriminate.
-Qed.
+(* The generic lemmas are proved for an arbitrary list of link sites [links] and an arbitrary set
+   [bad] of ids outside of which every link propagates (so that nothing about the big generated
+   constants is unfolded when they are checked); they are instantiated below. *)
+Section Generic.
+  Variable links : list site.
+  Variable bad : list string.
+  Hypothesis Hall : forall l, In l links -> ~ In (s_id l) bad -> link_returns_error l.
 
-Lemma no_silent_drop_except_intro (s : site) (D : list errclass) :
-  forallb (fun c => class_mem c D || io_propagates s c) all_classes = true ->
-  no_silent_drop_except link_sites s D bad_link_ids.
-Proof.
-  intros Hio c _. split.
-  - intros HnD. apply io_propagates_spec.
-    pose proof (forall_classes _ Hio c) as H. apply orb_true_iff in H. destruct H as [H | H]; [| exact H].
-    exfalso. apply HnD. apply class_mem_In. exact H.
-  - intros l [Hin _] Hnb. apply links_propagate_except_bad; assumption.
-Qed.
+  (* full property from: every class propagates in the function; the function's upward closure R
+     is closed; no bad link is called from R *)
+  Lemma no_silent_drop_intro_gen (s : site) (R : list string) :
+    forallb (io_propagates s) all_classes = true ->
+    up_closed links (s_func s) R = true ->
+    forallb (fun l => negb (str_mem (s_callee l) R) || negb (str_mem (s_id l) bad)) links = true ->
+    no_silent_drop links s.
+  Proof.
+    intros Hio Hcl Hnb c _. split.
+    - apply io_propagates_spec. revert c. apply forall_classes. exact Hio.
+    - intros l [Hin Hup]. apply Hall; [exact Hin |].
+      pose proof (up_closed_sound _ _ _ Hcl _ Hup) as HR.
+      rewrite forallb_forall in Hnb. specialize (Hnb _ Hin).
+      apply orb_true_iff in Hnb. destruct Hnb as [H1 | H2].
+      + rewrite HR in H1. discriminate.
+      + intros Hbad. apply str_mem_In in Hbad. rewrite Hbad in H2. discriminate.
+  Qed.
+
+  Lemma no_silent_drop_except_intro_gen (s : site) (D : list errclass) :
+    forallb (fun c => class_mem c D || io_propagates s c) all_classes = true ->
+    no_silent_drop_except links s D bad.
+  Proof.
+    intros Hio c _. split.
+    - intros HnD. apply io_propagates_spec.
+      pose proof (forall_classes _ Hio c) as H. apply orb_true_iff in H. destruct H as [H | H]; [| exact H].
+      exfalso. apply HnD. apply class_mem_In. exact H.
+    - intros l [Hin _] Hnb. apply Hall; assumption.
+  Qed.
+
+  (* the same when no losing link site is called from the upward closure R of the function *)
+  Lemma no_silent_drop_except_nolinks_intro_gen (s : site) (D : list errclass) (R : list string) :
+    forallb (fun c => class_mem c D || io_propagates s c) all_classes = true ->
+    up_closed links (s_func s) R = true ->
+    forallb (fun l => negb (str_mem (s_callee l) R) || negb (str_mem (s_id l) bad)) links = true ->
+    no_silent_drop_except links s D [].
+  Proof.
+    intros Hio Hcl Hnb c _. split.
+    - intros HnD. apply io_propagates_spec.
+      pose proof (forall_classes _ Hio c) as H. apply orb_true_iff in H. destruct H as [H | H]; [| exact H].
+      exfalso. apply HnD. apply class_mem_In. exact H.
+    - intros l [Hin Hup] _. apply Hall; [exact Hin |].
+      pose proof (up_closed_sound _ _ _ Hcl _ Hup) as HR.
+      rewrite forallb_forall in Hnb. specialize (Hnb _ Hin).
+      apply orb_true_iff in Hnb. destruct Hnb as [H1 | H2].
+      + rewrite HR in H1. discriminate.
+      + intros Hbad. apply str_mem_In in Hbad. rewrite Hbad in H2. discriminate.
+  Qed.
+
+  (* refutation by a dropped class *)
+  Lemma refute_by_class_gen (s : site) (c : errclass) :
+    io_propagates s c = false -> ~ no_silent_drop links s.
+  Proof.
+    intros H N. destruct (N c (mpi2nc_never_noerr c)) as [Hs _].
+    apply io_propagates_spec in Hs. congruence.
+  Qed.
+
+  (* refutation by a link site above the function that loses the error: explicit call path p (link
+     sites, from the function of s upwards) ending at the callee of the losing link site b *)
+  Lemma refute_by_link_gen (s : site) (p : list site) (b : site) :
+    In b links ->
+    path_from (s_func s) p = Some (s_callee b) ->
+    link_propagates b = false ->
+    (forall l, In l p -> In l links) ->
+    ~ no_silent_drop links s.
+  Proof.
+    intros Hb Hp Hd Hin N.
+    destruct (N E_IO (mpi2nc_never_noerr E_IO)) as [_ Hl].
+    assert (Hup : calls_up links (s_func s) (s_callee b)).
+    { eapply path_from_sound; [exact Hin | exact Hp | apply cu_refl]. }
+    specialize (Hl b (conj Hb Hup)). apply link_propagates_spec in Hl. congruence.
+  Qed.
+
+  (* chains of the hand-written propagation table *)
+  Lemma chain_reaches_api_intro_gen (fs : list string) :
+    chain_in_graph links fs = true ->
+    (forall caller callee l, In (caller, callee) (chain_hops fs) -> In l (hop_links links caller callee) ->
+                             str_mem (s_id l) bad = false) ->
+    chain_reaches_api links fs.
+  Proof.
+    intros Hg Hb. split; [exact Hg |]. intros caller callee l Hh Hl.
+    apply Hall.
+    - unfold hop_links in Hl. apply filter_In in Hl. tauto.
+    - intros Hbad. apply str_mem_In in Hbad. rewrite (Hb _ _ _ Hh Hl) in Hbad. discriminate.
+  Qed.
+
+  Lemma chain_reaches_api_except_intro_gen (fs : list string) :
+    chain_in_graph links fs = true ->
+    chain_reaches_api_except links fs bad.
+  Proof.
+    intros Hg. split; [exact Hg |]. intros caller callee l Hh Hl Hnb.
+    apply Hall; [| exact Hnb].
+    unfold hop_links in Hl. apply filter_In in Hl. tauto.
+  Qed.
+
+  Lemma chain_refute_gen (fs : list string) (k : nat) (caller callee : string) :
+    nth_error (chain_hops fs) k = Some (caller, callee) ->
+    existsb (fun l => negb (link_propagates l)) (hop_links links caller callee) = true ->
+    ~ chain_reaches_api links fs.
+  Proof.
+    intros Hk Hex [_ N]. apply nth_error_In in Hk.
+    apply existsb_exists in Hex. destruct Hex as [l [Hl Hb]].
+    specialize (N _ _ _ Hk Hl). apply link_propagates_spec in N. rewrite N in Hb. discriminate.
+  Qed.
+End Generic.
 
 Lemma drops_classes_intro (s : site) (D : list errclass) :
   forallb (fun c => negb (io_propagates s c)) D = true -> drops_classes s D.
@@ -359,66 +443,410 @@ Proof.
   apply io_propagates_spec in Hr. rewrite Hr in H. discriminate.
 Qed.
 
-(* refutation by a dropped class *)
-Lemma refute_by_class links (s : site) (c : errclass) :
-  io_propagates s c = false -> ~ no_silent_drop links s.
-Proof.
-  intros H N. destruct (N c (mpi2nc_never_noerr c)) as [Hs _].
-  apply io_propagates_spec in Hs. congruence.
-Qed.
-
-(* refutation by a link site above the function that loses the error: explicit call path p from the
-   function of s up to the callee of the bad link *)
-Lemma refute_by_link (s : site) (p : list string) (bad : string) :
-  forallb (fun id => match find_site id link_sites with Some _ => true | None => false end) (bad :: p) = true ->
-  path_from (s_func s) (sites_of p link_sites) = Some (s_callee (site_of bad link_sites)) ->
-  link_propagates (site_of bad link_sites) = false ->
-  ~ no_silent_drop link_sites s.
-Proof.
-  intros Hk Hp Hb N.
-  assert (Hfind : forall id, In id (bad :: p) -> In (site_of id link_sites) link_sites).
-  { intros id Hid. rewrite forallb_forall in Hk. specialize (Hk _ Hid). unfold site_of.
-    destruct (find_site id link_sites) as [x |] eqn:E; [| discriminate].
-    unfold find_site in E. apply find_some in E. tauto. }
-  destruct (N E_IO (mpi2nc_never_noerr E_IO)) as [_ Hl].
-  assert (Hup : calls_up link_sites (s_func s) (s_callee (site_of bad link_sites))).
-  { eapply path_from_sound; [| exact Hp | apply cu_refl].
-    intros l Hl'. unfold sites_of in Hl'. apply in_map_iff in Hl'. destruct Hl' as [id [E Hid]].
-    subst. apply Hfind. right. exact Hid. }
-  specialize (Hl (site_of bad link_sites) (conj (Hfind bad (or_introl eq_refl)) Hup)).
-  apply link_propagates_spec in Hl. congruence.
-Qed.
-
-(* chains of the hand-written propagation table *)
-Lemma chain_reaches_api_intro (fs : list string) :
-  chain_in_graph link_sites fs = true ->
-  forallb (fun h => forallb (fun l => negb (str_mem (s_id l) bad_link_ids)) (hop_links link_sites (fst h) (snd h)))
+(* decidable membership of a site in a list, by its identifying fields (ids are unique) *)
+Lemma forallb_hops_bad (links : list site) (bad : list string) (fs : list string) :
+  forallb (fun h : string * string =>
+             forallb (fun l => negb (str_mem (s_id l) bad)) (hop_links links (fst h) (snd h)))
           (chain_hops fs) = true ->
-  chain_reaches_api link_sites fs.
+  forall caller callee l, In (caller, callee) (chain_hops fs) -> In l (hop_links links caller callee) ->
+                          str_mem (s_id l) bad = false.
 Proof.
-  intros Hg Hb. split; [exact Hg |]. intros caller callee l Hh Hl.
-  apply links_propagate_except_bad.
-  - unfold hop_links in Hl. apply filter_In in Hl. tauto.
-  - rewrite forallb_forall in Hb. specialize (Hb _ Hh). cbn [fst snd] in Hb.
-    rewrite forallb_forall in Hb. specialize (Hb _ Hl).
-    intros Hbad. apply str_mem_In in Hbad. rewrite Hbad in Hb. discriminate.
+  intros H caller callee l Hh Hl. rewrite forallb_forall in H. specialize (H _ Hh).
+  change (forallb (fun l => negb (str_mem (s_id l) bad)) (hop_links links caller callee) = true) in H.
+  rewrite forallb_forall in H. specialize (H _ Hl). apply negb_true_iff in H. exact H.
 Qed.
 
-Lemma chain_reaches_api_except_intro (fs : list string) :
-  chain_in_graph link_sites fs = true ->
-  chain_reaches_api_except link_sites fs bad_link_ids.
+(* instances for the generated link sites *)
+Definition no_silent_drop_intro := no_silent_drop_intro_gen link_sites bad_link_ids links_propagate_except_bad.
+Definition no_silent_drop_except_intro := no_silent_drop_except_intro_gen link_sites bad_link_ids links_propagate_except_bad.
+Definition no_silent_drop_except_nolinks_intro := no_silent_drop_except_nolinks_intro_gen link_sites bad_link_ids links_propagate_except_bad.
+Definition refute_by_class := refute_by_class_gen link_sites.
+Definition refute_by_link := refute_by_link_gen link_sites.
+Definition chain_reaches_api_intro := chain_reaches_api_intro_gen link_sites bad_link_ids links_propagate_except_bad.
+Definition chain_reaches_api_except_intro := chain_reaches_api_except_intro_gen link_sites bad_link_ids links_propagate_except_bad.
+Definition chain_refute := chain_refute_gen link_sites.
+
+(* membership of explicitly named sites in the generated lists *)
+Lemma site_of_In (id : string) (l : list site) :
+  (match find_site id l with Some _ => true | None => false end) = true -> In (site_of id l) l.
 Proof.
-  intros Hg. split; [exact Hg |]. intros caller callee l Hh Hl Hnb.
-  apply links_propagate_except_bad; [| exact Hnb].
-  unfold hop_links in Hl. apply filter_In in Hl. tauto.
+  unfold site_of. destruct (find_site id l) as [x |] eqn:E; [| discriminate].
+  intros _. unfold find_site in E. apply find_some in E. tauto.
 Qed.
 
-Lemma chain_refute (fs : list string) (caller callee : string) :
-  In (caller, callee) (chain_hops fs) ->
-  existsb (fun l => negb (link_propagates l)) (hop_links link_sites caller callee) = true ->
-  ~ chain_reaches_api link_sites fs.
+Lemma sites_of_In (ids : list string) (l : list site) :
+  forallb (fun id => match find_site id l with Some _ => true | None => false end) ids = true ->
+  forall x, In x (sites_of ids l) -> In x l.
 Proof.
-  intros Hh Hex [_ N].
-  apply existsb_exists in Hex. destruct Hex as [l [Hl Hb]].
-  specialize (N _ _ _ Hh Hl). apply link_propagates_spec in N. rewrite N in Hb. discriminate.
+  intros H x Hx. unfold sites_of in Hx. apply in_map_iff in Hx. destruct Hx as [id [E Hid]].
+  subst. apply site_of_In. rewrite forallb_forall in H. apply H. exact Hid.
 Qed.
+
+(* the hypotheses of the statements are satisfiable / the statements are not vacuous *)
+Example mpi2nc_hypothesis_satisfiable : mpi2nc E_NO_SPACE <> NC_NOERR /\ mpi2nc E_IO <> NC_NOERR.
+Proof. split; apply mpi2nc_never_noerr. Qed.
+
+Example on_path_inhabited :
+  on_path link_sites "write_NC" (site_of "ncmpio_enddef.c:ncmpio__enddef:write_NC" link_sites) /\
+  on_path link_sites "write_NC" (site_of "file.c:ncmpi_enddef:ncmpio_enddef" link_sites).
+Proof.
+  split; split; try (apply site_of_In; vm_compute; reflexivity).
+  - apply cu_refl.
+  - eapply (path_from_sound link_sites
+              (sites_of ["ncmpio_enddef.c:ncmpio__enddef:write_NC"; "ncmpio_enddef.c:ncmpio_enddef:ncmpio__enddef"] link_sites)
+              "write_NC").
+    + apply sites_of_In; vm_compute; reflexivity.
+    + vm_compute; reflexivity.
+    + apply cu_refl.
+Qed.
+
+(* ==== PART 2: per-site and per-chain lemmas (generated by `python3 -m checks.C11 --regen`) ==== *)
+
+Lemma nsd_move_file_block__MPI_File_read_at_all_refuted : ~ no_silent_drop link_sites (site_of "ncmpio_enddef.c:move_file_block:MPI_File_read_at_all" io_sites).
+Proof. apply (refute_by_class (site_of "ncmpio_enddef.c:move_file_block:MPI_File_read_at_all" io_sites) E_NO_SPACE). vm_compute. reflexivity. Qed.
+
+Lemma nsd_move_file_block__MPI_File_read_at_all_drops : drops_classes (site_of "ncmpio_enddef.c:move_file_block:MPI_File_read_at_all" io_sites) [E_ACCESS; E_AMODE; E_BAD_FILE; E_FILE_EXISTS; E_NOT_SAME; E_NO_SPACE; E_NO_SUCH_FILE; E_QUOTA; E_READ_ONLY].
+Proof. apply drops_classes_intro; vm_compute; reflexivity. Qed.
+
+Lemma nsd_move_file_block__MPI_File_read_at_all_partial : no_silent_drop_except link_sites (site_of "ncmpio_enddef.c:move_file_block:MPI_File_read_at_all" io_sites) [E_ACCESS; E_AMODE; E_BAD_FILE; E_FILE_EXISTS; E_NOT_SAME; E_NO_SPACE; E_NO_SUCH_FILE; E_QUOTA; E_READ_ONLY] [].
+Proof. apply (no_silent_drop_except_nolinks_intro _ _ (reach_up link_sites (s_func (site_of "ncmpio_enddef.c:move_file_block:MPI_File_read_at_all" io_sites)))); vm_compute; reflexivity. Qed.
+
+Lemma nsd_move_file_block__MPI_File_write_at_all_refuted : ~ no_silent_drop link_sites (site_of "ncmpio_enddef.c:move_file_block:MPI_File_write_at_all" io_sites).
+Proof. apply (refute_by_class (site_of "ncmpio_enddef.c:move_file_block:MPI_File_write_at_all" io_sites) E_NO_SPACE). vm_compute. reflexivity. Qed.
+
+Lemma nsd_move_file_block__MPI_File_write_at_all_drops : drops_classes (site_of "ncmpio_enddef.c:move_file_block:MPI_File_write_at_all" io_sites) [E_ACCESS; E_AMODE; E_BAD_FILE; E_FILE_EXISTS; E_NOT_SAME; E_NO_SPACE; E_NO_SUCH_FILE; E_QUOTA; E_READ_ONLY].
+Proof. apply drops_classes_intro; vm_compute; reflexivity. Qed.
+
+Lemma nsd_move_file_block__MPI_File_write_at_all_partial : no_silent_drop_except link_sites (site_of "ncmpio_enddef.c:move_file_block:MPI_File_write_at_all" io_sites) [E_ACCESS; E_AMODE; E_BAD_FILE; E_FILE_EXISTS; E_NOT_SAME; E_NO_SPACE; E_NO_SUCH_FILE; E_QUOTA; E_READ_ONLY] [].
+Proof. apply (no_silent_drop_except_nolinks_intro _ _ (reach_up link_sites (s_func (site_of "ncmpio_enddef.c:move_file_block:MPI_File_write_at_all" io_sites)))); vm_compute; reflexivity. Qed.
+
+Lemma nsd_move_file_block__MPI_File_write_at_refuted : ~ no_silent_drop link_sites (site_of "ncmpio_enddef.c:move_file_block:MPI_File_write_at" io_sites).
+Proof. apply (refute_by_class (site_of "ncmpio_enddef.c:move_file_block:MPI_File_write_at" io_sites) E_NO_SPACE). vm_compute. reflexivity. Qed.
+
+Lemma nsd_move_file_block__MPI_File_write_at_drops : drops_classes (site_of "ncmpio_enddef.c:move_file_block:MPI_File_write_at" io_sites) [E_ACCESS; E_AMODE; E_BAD_FILE; E_FILE_EXISTS; E_NOT_SAME; E_NO_SPACE; E_NO_SUCH_FILE; E_QUOTA; E_READ_ONLY].
+Proof. apply drops_classes_intro; vm_compute; reflexivity. Qed.
+
+Lemma nsd_move_file_block__MPI_File_write_at_partial : no_silent_drop_except link_sites (site_of "ncmpio_enddef.c:move_file_block:MPI_File_write_at" io_sites) [E_ACCESS; E_AMODE; E_BAD_FILE; E_FILE_EXISTS; E_NOT_SAME; E_NO_SPACE; E_NO_SUCH_FILE; E_QUOTA; E_READ_ONLY] [].
+Proof. apply (no_silent_drop_except_nolinks_intro _ _ (reach_up link_sites (s_func (site_of "ncmpio_enddef.c:move_file_block:MPI_File_write_at" io_sites)))); vm_compute; reflexivity. Qed.
+
+Lemma nsd_write_NC__MPI_File_write_at_all_1_refuted : ~ no_silent_drop link_sites (site_of "ncmpio_enddef.c:write_NC:MPI_File_write_at_all#1" io_sites).
+Proof. apply (refute_by_class (site_of "ncmpio_enddef.c:write_NC:MPI_File_write_at_all#1" io_sites) E_NO_SPACE). vm_compute. reflexivity. Qed.
+
+Lemma nsd_write_NC__MPI_File_write_at_all_1_drops : drops_classes (site_of "ncmpio_enddef.c:write_NC:MPI_File_write_at_all#1" io_sites) [E_ACCESS; E_AMODE; E_BAD_FILE; E_FILE_EXISTS; E_NOT_SAME; E_NO_SPACE; E_NO_SUCH_FILE; E_QUOTA; E_READ_ONLY].
+Proof. apply drops_classes_intro; vm_compute; reflexivity. Qed.
+
+Lemma nsd_write_NC__MPI_File_write_at_all_1_partial : no_silent_drop_except link_sites (site_of "ncmpio_enddef.c:write_NC:MPI_File_write_at_all#1" io_sites) [E_ACCESS; E_AMODE; E_BAD_FILE; E_FILE_EXISTS; E_NOT_SAME; E_NO_SPACE; E_NO_SUCH_FILE; E_QUOTA; E_READ_ONLY] [].
+Proof. apply (no_silent_drop_except_nolinks_intro _ _ (reach_up link_sites (s_func (site_of "ncmpio_enddef.c:write_NC:MPI_File_write_at_all#1" io_sites)))); vm_compute; reflexivity. Qed.
+
+Lemma nsd_write_NC__MPI_File_write_at_refuted : ~ no_silent_drop link_sites (site_of "ncmpio_enddef.c:write_NC:MPI_File_write_at" io_sites).
+Proof. apply (refute_by_class (site_of "ncmpio_enddef.c:write_NC:MPI_File_write_at" io_sites) E_NO_SPACE). vm_compute. reflexivity. Qed.
+
+Lemma nsd_write_NC__MPI_File_write_at_drops : drops_classes (site_of "ncmpio_enddef.c:write_NC:MPI_File_write_at" io_sites) [E_ACCESS; E_AMODE; E_BAD_FILE; E_FILE_EXISTS; E_NOT_SAME; E_NO_SPACE; E_NO_SUCH_FILE; E_QUOTA; E_READ_ONLY].
+Proof. apply drops_classes_intro; vm_compute; reflexivity. Qed.
+
+Lemma nsd_write_NC__MPI_File_write_at_partial : no_silent_drop_except link_sites (site_of "ncmpio_enddef.c:write_NC:MPI_File_write_at" io_sites) [E_ACCESS; E_AMODE; E_BAD_FILE; E_FILE_EXISTS; E_NOT_SAME; E_NO_SPACE; E_NO_SUCH_FILE; E_QUOTA; E_READ_ONLY] [].
+Proof. apply (no_silent_drop_except_nolinks_intro _ _ (reach_up link_sites (s_func (site_of "ncmpio_enddef.c:write_NC:MPI_File_write_at" io_sites)))); vm_compute; reflexivity. Qed.
+
+Lemma nsd_write_NC__MPI_File_write_at_all_2_refuted : ~ no_silent_drop link_sites (site_of "ncmpio_enddef.c:write_NC:MPI_File_write_at_all#2" io_sites).
+Proof. apply (refute_by_class (site_of "ncmpio_enddef.c:write_NC:MPI_File_write_at_all#2" io_sites) E_NO_SPACE). vm_compute. reflexivity. Qed.
+
+Lemma nsd_write_NC__MPI_File_write_at_all_2_drops : drops_classes (site_of "ncmpio_enddef.c:write_NC:MPI_File_write_at_all#2" io_sites) [E_BUFFER; E_COUNT; E_TYPE; E_TAG; E_COMM; E_RANK; E_REQUEST; E_ROOT; E_GROUP; E_OP; E_TOPOLOGY; E_DIMS; E_ARG; E_UNKNOWN; E_TRUNCATE; E_OTHER; E_INTERN; E_IN_STATUS; E_PENDING; E_ACCESS; E_AMODE; E_ASSERT; E_BAD_FILE; E_BASE; E_CONVERSION; E_DISP; E_DUP_DATAREP; E_FILE_EXISTS; E_FILE_IN_USE; E_FILE; E_INFO_KEY; E_INFO_NOKEY; E_INFO_VALUE; E_INFO; E_IO; E_KEYVAL; E_LOCKTYPE; E_NAME; E_NO_MEM; E_NOT_SAME; E_NO_SPACE; E_NO_SUCH_FILE; E_PORT; E_QUOTA; E_READ_ONLY; E_RMA_CONFLICT; E_RMA_SYNC; E_SERVICE; E_SIZE; E_SPAWN; E_UNSUPPORTED_DATAREP; E_UNSUPPORTED_OPERATION; E_WIN; E_RMA_RANGE; E_RMA_ATTACH; E_RMA_FLAVOR; E_RMA_SHARED; E_ANY_OTHER_CLASS].
+Proof. apply drops_classes_intro; vm_compute; reflexivity. Qed.
+
+Lemma nsd_write_NC__MPI_File_write_at_all_2_partial : no_silent_drop_except link_sites (site_of "ncmpio_enddef.c:write_NC:MPI_File_write_at_all#2" io_sites) [E_BUFFER; E_COUNT; E_TYPE; E_TAG; E_COMM; E_RANK; E_REQUEST; E_ROOT; E_GROUP; E_OP; E_TOPOLOGY; E_DIMS; E_ARG; E_UNKNOWN; E_TRUNCATE; E_OTHER; E_INTERN; E_IN_STATUS; E_PENDING; E_ACCESS; E_AMODE; E_ASSERT; E_BAD_FILE; E_BASE; E_CONVERSION; E_DISP; E_DUP_DATAREP; E_FILE_EXISTS; E_FILE_IN_USE; E_FILE; E_INFO_KEY; E_INFO_NOKEY; E_INFO_VALUE; E_INFO; E_IO; E_KEYVAL; E_LOCKTYPE; E_NAME; E_NO_MEM; E_NOT_SAME; E_NO_SPACE; E_NO_SUCH_FILE; E_PORT; E_QUOTA; E_READ_ONLY; E_RMA_CONFLICT; E_RMA_SYNC; E_SERVICE; E_SIZE; E_SPAWN; E_UNSUPPORTED_DATAREP; E_UNSUPPORTED_OPERATION; E_WIN; E_RMA_RANGE; E_RMA_ATTACH; E_RMA_FLAVOR; E_RMA_SHARED; E_ANY_OTHER_CLASS] [].
+Proof. apply (no_silent_drop_except_nolinks_intro _ _ (reach_up link_sites (s_func (site_of "ncmpio_enddef.c:write_NC:MPI_File_write_at_all#2" io_sites)))); vm_compute; reflexivity. Qed.
+
+Lemma nsd_ncmpio_read_write__MPI_File_read_at_all_refuted : ~ no_silent_drop link_sites (site_of "ncmpio_file_io.c:ncmpio_read_write:MPI_File_read_at_all" io_sites).
+Proof.
+  apply (refute_by_link (site_of "ncmpio_file_io.c:ncmpio_read_write:MPI_File_read_at_all" io_sites) (sites_of ["ncmpio_intra_node.c:intra_node_aggregation:ncmpio_read_write"; "ncmpio_intra_node.c:ncmpio_intra_node_aggregation_nreqs:intra_node_aggregation"] link_sites) (site_of "ncmpio_wait.c:req_commit:ncmpio_intra_node_aggregation_nreqs" link_sites)).
+  - apply site_of_In; vm_compute; reflexivity.
+  - vm_compute; reflexivity.
+  - vm_compute; reflexivity.
+  - apply sites_of_In; vm_compute; reflexivity.
+Qed.
+
+Lemma nsd_ncmpio_read_write__MPI_File_read_at_all_partial : no_silent_drop_except link_sites (site_of "ncmpio_file_io.c:ncmpio_read_write:MPI_File_read_at_all" io_sites) [] bad_link_ids.
+Proof. apply no_silent_drop_except_intro; vm_compute; reflexivity. Qed.
+
+Lemma nsd_ncmpio_read_write__MPI_File_read_at_refuted : ~ no_silent_drop link_sites (site_of "ncmpio_file_io.c:ncmpio_read_write:MPI_File_read_at" io_sites).
+Proof.
+  apply (refute_by_link (site_of "ncmpio_file_io.c:ncmpio_read_write:MPI_File_read_at" io_sites) (sites_of ["ncmpio_intra_node.c:intra_node_aggregation:ncmpio_read_write"; "ncmpio_intra_node.c:ncmpio_intra_node_aggregation_nreqs:intra_node_aggregation"] link_sites) (site_of "ncmpio_wait.c:req_commit:ncmpio_intra_node_aggregation_nreqs" link_sites)).
+  - apply site_of_In; vm_compute; reflexivity.
+  - vm_compute; reflexivity.
+  - vm_compute; reflexivity.
+  - apply sites_of_In; vm_compute; reflexivity.
+Qed.
+
+Lemma nsd_ncmpio_read_write__MPI_File_read_at_partial : no_silent_drop_except link_sites (site_of "ncmpio_file_io.c:ncmpio_read_write:MPI_File_read_at" io_sites) [] bad_link_ids.
+Proof. apply no_silent_drop_except_intro; vm_compute; reflexivity. Qed.
+
+Lemma nsd_ncmpio_read_write__MPI_File_write_at_all_refuted : ~ no_silent_drop link_sites (site_of "ncmpio_file_io.c:ncmpio_read_write:MPI_File_write_at_all" io_sites).
+Proof.
+  apply (refute_by_link (site_of "ncmpio_file_io.c:ncmpio_read_write:MPI_File_write_at_all" io_sites) (sites_of ["ncmpio_intra_node.c:intra_node_aggregation:ncmpio_read_write"; "ncmpio_intra_node.c:ncmpio_intra_node_aggregation_nreqs:intra_node_aggregation"] link_sites) (site_of "ncmpio_wait.c:req_commit:ncmpio_intra_node_aggregation_nreqs" link_sites)).
+  - apply site_of_In; vm_compute; reflexivity.
+  - vm_compute; reflexivity.
+  - vm_compute; reflexivity.
+  - apply sites_of_In; vm_compute; reflexivity.
+Qed.
+
+Lemma nsd_ncmpio_read_write__MPI_File_write_at_all_partial : no_silent_drop_except link_sites (site_of "ncmpio_file_io.c:ncmpio_read_write:MPI_File_write_at_all" io_sites) [] bad_link_ids.
+Proof. apply no_silent_drop_except_intro; vm_compute; reflexivity. Qed.
+
+Lemma nsd_ncmpio_read_write__MPI_File_write_at_refuted : ~ no_silent_drop link_sites (site_of "ncmpio_file_io.c:ncmpio_read_write:MPI_File_write_at" io_sites).
+Proof.
+  apply (refute_by_link (site_of "ncmpio_file_io.c:ncmpio_read_write:MPI_File_write_at" io_sites) (sites_of ["ncmpio_intra_node.c:intra_node_aggregation:ncmpio_read_write"; "ncmpio_intra_node.c:ncmpio_intra_node_aggregation_nreqs:intra_node_aggregation"] link_sites) (site_of "ncmpio_wait.c:req_commit:ncmpio_intra_node_aggregation_nreqs" link_sites)).
+  - apply site_of_In; vm_compute; reflexivity.
+  - vm_compute; reflexivity.
+  - vm_compute; reflexivity.
+  - apply sites_of_In; vm_compute; reflexivity.
+Qed.
+
+Lemma nsd_ncmpio_read_write__MPI_File_write_at_partial : no_silent_drop_except link_sites (site_of "ncmpio_file_io.c:ncmpio_read_write:MPI_File_write_at" io_sites) [] bad_link_ids.
+Proof. apply no_silent_drop_except_intro; vm_compute; reflexivity. Qed.
+
+Lemma nsd_fill_var_rec__MPI_File_write_at_all : no_silent_drop link_sites (site_of "ncmpio_fill.c:fill_var_rec:MPI_File_write_at_all" io_sites).
+Proof. apply (no_silent_drop_intro _ (reach_up link_sites (s_func (site_of "ncmpio_fill.c:fill_var_rec:MPI_File_write_at_all" io_sites)))); vm_compute; reflexivity. Qed.
+
+Lemma nsd_fill_var_rec__MPI_File_write_at : no_silent_drop link_sites (site_of "ncmpio_fill.c:fill_var_rec:MPI_File_write_at" io_sites).
+Proof. apply (no_silent_drop_intro _ (reach_up link_sites (s_func (site_of "ncmpio_fill.c:fill_var_rec:MPI_File_write_at" io_sites)))); vm_compute; reflexivity. Qed.
+
+Lemma nsd_fillerup_aggregate__MPI_File_write_at_all_refuted : ~ no_silent_drop link_sites (site_of "ncmpio_fill.c:fillerup_aggregate:MPI_File_write_at_all" io_sites).
+Proof. apply (refute_by_class (site_of "ncmpio_fill.c:fillerup_aggregate:MPI_File_write_at_all" io_sites) E_NO_SPACE). vm_compute. reflexivity. Qed.
+
+Lemma nsd_fillerup_aggregate__MPI_File_write_at_all_drops : drops_classes (site_of "ncmpio_fill.c:fillerup_aggregate:MPI_File_write_at_all" io_sites) [E_BUFFER; E_COUNT; E_TYPE; E_TAG; E_COMM; E_RANK; E_REQUEST; E_ROOT; E_GROUP; E_OP; E_TOPOLOGY; E_DIMS; E_ARG; E_UNKNOWN; E_TRUNCATE; E_OTHER; E_INTERN; E_IN_STATUS; E_PENDING; E_ACCESS; E_AMODE; E_ASSERT; E_BAD_FILE; E_BASE; E_CONVERSION; E_DISP; E_DUP_DATAREP; E_FILE_EXISTS; E_FILE_IN_USE; E_FILE; E_INFO_KEY; E_INFO_NOKEY; E_INFO_VALUE; E_INFO; E_IO; E_KEYVAL; E_LOCKTYPE; E_NAME; E_NO_MEM; E_NOT_SAME; E_NO_SPACE; E_NO_SUCH_FILE; E_PORT; E_QUOTA; E_READ_ONLY; E_RMA_CONFLICT; E_RMA_SYNC; E_SERVICE; E_SIZE; E_SPAWN; E_UNSUPPORTED_DATAREP; E_UNSUPPORTED_OPERATION; E_WIN; E_RMA_RANGE; E_RMA_ATTACH; E_RMA_FLAVOR; E_RMA_SHARED; E_ANY_OTHER_CLASS].
+Proof. apply drops_classes_intro; vm_compute; reflexivity. Qed.
+
+Lemma nsd_fillerup_aggregate__MPI_File_write_at_all_partial : no_silent_drop_except link_sites (site_of "ncmpio_fill.c:fillerup_aggregate:MPI_File_write_at_all" io_sites) [E_BUFFER; E_COUNT; E_TYPE; E_TAG; E_COMM; E_RANK; E_REQUEST; E_ROOT; E_GROUP; E_OP; E_TOPOLOGY; E_DIMS; E_ARG; E_UNKNOWN; E_TRUNCATE; E_OTHER; E_INTERN; E_IN_STATUS; E_PENDING; E_ACCESS; E_AMODE; E_ASSERT; E_BAD_FILE; E_BASE; E_CONVERSION; E_DISP; E_DUP_DATAREP; E_FILE_EXISTS; E_FILE_IN_USE; E_FILE; E_INFO_KEY; E_INFO_NOKEY; E_INFO_VALUE; E_INFO; E_IO; E_KEYVAL; E_LOCKTYPE; E_NAME; E_NO_MEM; E_NOT_SAME; E_NO_SPACE; E_NO_SUCH_FILE; E_PORT; E_QUOTA; E_READ_ONLY; E_RMA_CONFLICT; E_RMA_SYNC; E_SERVICE; E_SIZE; E_SPAWN; E_UNSUPPORTED_DATAREP; E_UNSUPPORTED_OPERATION; E_WIN; E_RMA_RANGE; E_RMA_ATTACH; E_RMA_FLAVOR; E_RMA_SHARED; E_ANY_OTHER_CLASS] [].
+Proof. apply (no_silent_drop_except_nolinks_intro _ _ (reach_up link_sites (s_func (site_of "ncmpio_fill.c:fillerup_aggregate:MPI_File_write_at_all" io_sites)))); vm_compute; reflexivity. Qed.
+
+Lemma nsd_fillerup_aggregate__MPI_File_write_at_refuted : ~ no_silent_drop link_sites (site_of "ncmpio_fill.c:fillerup_aggregate:MPI_File_write_at" io_sites).
+Proof. apply (refute_by_class (site_of "ncmpio_fill.c:fillerup_aggregate:MPI_File_write_at" io_sites) E_NO_SPACE). vm_compute. reflexivity. Qed.
+
+Lemma nsd_fillerup_aggregate__MPI_File_write_at_drops : drops_classes (site_of "ncmpio_fill.c:fillerup_aggregate:MPI_File_write_at" io_sites) [E_BUFFER; E_COUNT; E_TYPE; E_TAG; E_COMM; E_RANK; E_REQUEST; E_ROOT; E_GROUP; E_OP; E_TOPOLOGY; E_DIMS; E_ARG; E_UNKNOWN; E_TRUNCATE; E_OTHER; E_INTERN; E_IN_STATUS; E_PENDING; E_ACCESS; E_AMODE; E_ASSERT; E_BAD_FILE; E_BASE; E_CONVERSION; E_DISP; E_DUP_DATAREP; E_FILE_EXISTS; E_FILE_IN_USE; E_FILE; E_INFO_KEY; E_INFO_NOKEY; E_INFO_VALUE; E_INFO; E_IO; E_KEYVAL; E_LOCKTYPE; E_NAME; E_NO_MEM; E_NOT_SAME; E_NO_SPACE; E_NO_SUCH_FILE; E_PORT; E_QUOTA; E_READ_ONLY; E_RMA_CONFLICT; E_RMA_SYNC; E_SERVICE; E_SIZE; E_SPAWN; E_UNSUPPORTED_DATAREP; E_UNSUPPORTED_OPERATION; E_WIN; E_RMA_RANGE; E_RMA_ATTACH; E_RMA_FLAVOR; E_RMA_SHARED; E_ANY_OTHER_CLASS].
+Proof. apply drops_classes_intro; vm_compute; reflexivity. Qed.
+
+Lemma nsd_fillerup_aggregate__MPI_File_write_at_partial : no_silent_drop_except link_sites (site_of "ncmpio_fill.c:fillerup_aggregate:MPI_File_write_at" io_sites) [E_BUFFER; E_COUNT; E_TYPE; E_TAG; E_COMM; E_RANK; E_REQUEST; E_ROOT; E_GROUP; E_OP; E_TOPOLOGY; E_DIMS; E_ARG; E_UNKNOWN; E_TRUNCATE; E_OTHER; E_INTERN; E_IN_STATUS; E_PENDING; E_ACCESS; E_AMODE; E_ASSERT; E_BAD_FILE; E_BASE; E_CONVERSION; E_DISP; E_DUP_DATAREP; E_FILE_EXISTS; E_FILE_IN_USE; E_FILE; E_INFO_KEY; E_INFO_NOKEY; E_INFO_VALUE; E_INFO; E_IO; E_KEYVAL; E_LOCKTYPE; E_NAME; E_NO_MEM; E_NOT_SAME; E_NO_SPACE; E_NO_SUCH_FILE; E_PORT; E_QUOTA; E_READ_ONLY; E_RMA_CONFLICT; E_RMA_SYNC; E_SERVICE; E_SIZE; E_SPAWN; E_UNSUPPORTED_DATAREP; E_UNSUPPORTED_OPERATION; E_WIN; E_RMA_RANGE; E_RMA_ATTACH; E_RMA_FLAVOR; E_RMA_SHARED; E_ANY_OTHER_CLASS] [].
+Proof. apply (no_silent_drop_except_nolinks_intro _ _ (reach_up link_sites (s_func (site_of "ncmpio_fill.c:fillerup_aggregate:MPI_File_write_at" io_sites)))); vm_compute; reflexivity. Qed.
+
+Lemma nsd_hdr_fetch__MPI_File_read_at_all_1_refuted : ~ no_silent_drop link_sites (site_of "ncmpio_header_get.c:hdr_fetch:MPI_File_read_at_all#1" io_sites).
+Proof.
+  apply (refute_by_link (site_of "ncmpio_header_get.c:hdr_fetch:MPI_File_read_at_all#1" io_sites) (sites_of ["ncmpio_header_get.c:hdr_get_uint32:hdr_fetch"] link_sites) (site_of "ncmpio_header_get.c:hdr_get_NC_var:hdr_get_uint32#2" link_sites)).
+  - apply site_of_In; vm_compute; reflexivity.
+  - vm_compute; reflexivity.
+  - vm_compute; reflexivity.
+  - apply sites_of_In; vm_compute; reflexivity.
+Qed.
+
+Lemma nsd_hdr_fetch__MPI_File_read_at_all_1_partial : no_silent_drop_except link_sites (site_of "ncmpio_header_get.c:hdr_fetch:MPI_File_read_at_all#1" io_sites) [] bad_link_ids.
+Proof. apply no_silent_drop_except_intro; vm_compute; reflexivity. Qed.
+
+Lemma nsd_hdr_fetch__MPI_File_read_at_refuted : ~ no_silent_drop link_sites (site_of "ncmpio_header_get.c:hdr_fetch:MPI_File_read_at" io_sites).
+Proof.
+  apply (refute_by_link (site_of "ncmpio_header_get.c:hdr_fetch:MPI_File_read_at" io_sites) (sites_of ["ncmpio_header_get.c:hdr_get_uint32:hdr_fetch"] link_sites) (site_of "ncmpio_header_get.c:hdr_get_NC_var:hdr_get_uint32#2" link_sites)).
+  - apply site_of_In; vm_compute; reflexivity.
+  - vm_compute; reflexivity.
+  - vm_compute; reflexivity.
+  - apply sites_of_In; vm_compute; reflexivity.
+Qed.
+
+Lemma nsd_hdr_fetch__MPI_File_read_at_partial : no_silent_drop_except link_sites (site_of "ncmpio_header_get.c:hdr_fetch:MPI_File_read_at" io_sites) [] bad_link_ids.
+Proof. apply no_silent_drop_except_intro; vm_compute; reflexivity. Qed.
+
+Lemma nsd_hdr_fetch__MPI_File_read_at_all_2_refuted : ~ no_silent_drop link_sites (site_of "ncmpio_header_get.c:hdr_fetch:MPI_File_read_at_all#2" io_sites).
+Proof. apply (refute_by_class (site_of "ncmpio_header_get.c:hdr_fetch:MPI_File_read_at_all#2" io_sites) E_NO_SPACE). vm_compute. reflexivity. Qed.
+
+Lemma nsd_hdr_fetch__MPI_File_read_at_all_2_drops : drops_classes (site_of "ncmpio_header_get.c:hdr_fetch:MPI_File_read_at_all#2" io_sites) [E_BUFFER; E_COUNT; E_TYPE; E_TAG; E_COMM; E_RANK; E_REQUEST; E_ROOT; E_GROUP; E_OP; E_TOPOLOGY; E_DIMS; E_ARG; E_UNKNOWN; E_TRUNCATE; E_OTHER; E_INTERN; E_IN_STATUS; E_PENDING; E_ACCESS; E_AMODE; E_ASSERT; E_BAD_FILE; E_BASE; E_CONVERSION; E_DISP; E_DUP_DATAREP; E_FILE_EXISTS; E_FILE_IN_USE; E_FILE; E_INFO_KEY; E_INFO_NOKEY; E_INFO_VALUE; E_INFO; E_IO; E_KEYVAL; E_LOCKTYPE; E_NAME; E_NO_MEM; E_NOT_SAME; E_NO_SPACE; E_NO_SUCH_FILE; E_PORT; E_QUOTA; E_READ_ONLY; E_RMA_CONFLICT; E_RMA_SYNC; E_SERVICE; E_SIZE; E_SPAWN; E_UNSUPPORTED_DATAREP; E_UNSUPPORTED_OPERATION; E_WIN; E_RMA_RANGE; E_RMA_ATTACH; E_RMA_FLAVOR; E_RMA_SHARED; E_ANY_OTHER_CLASS].
+Proof. apply drops_classes_intro; vm_compute; reflexivity. Qed.
+
+Lemma nsd_hdr_fetch__MPI_File_read_at_all_2_partial : no_silent_drop_except link_sites (site_of "ncmpio_header_get.c:hdr_fetch:MPI_File_read_at_all#2" io_sites) [E_BUFFER; E_COUNT; E_TYPE; E_TAG; E_COMM; E_RANK; E_REQUEST; E_ROOT; E_GROUP; E_OP; E_TOPOLOGY; E_DIMS; E_ARG; E_UNKNOWN; E_TRUNCATE; E_OTHER; E_INTERN; E_IN_STATUS; E_PENDING; E_ACCESS; E_AMODE; E_ASSERT; E_BAD_FILE; E_BASE; E_CONVERSION; E_DISP; E_DUP_DATAREP; E_FILE_EXISTS; E_FILE_IN_USE; E_FILE; E_INFO_KEY; E_INFO_NOKEY; E_INFO_VALUE; E_INFO; E_IO; E_KEYVAL; E_LOCKTYPE; E_NAME; E_NO_MEM; E_NOT_SAME; E_NO_SPACE; E_NO_SUCH_FILE; E_PORT; E_QUOTA; E_READ_ONLY; E_RMA_CONFLICT; E_RMA_SYNC; E_SERVICE; E_SIZE; E_SPAWN; E_UNSUPPORTED_DATAREP; E_UNSUPPORTED_OPERATION; E_WIN; E_RMA_RANGE; E_RMA_ATTACH; E_RMA_FLAVOR; E_RMA_SHARED; E_ANY_OTHER_CLASS] bad_link_ids.
+Proof. apply no_silent_drop_except_intro; vm_compute; reflexivity. Qed.
+
+Lemma nsd_ncmpio_write_header__MPI_File_write_at_all_1 : no_silent_drop link_sites (site_of "ncmpio_header_put.c:ncmpio_write_header:MPI_File_write_at_all#1" io_sites).
+Proof. apply (no_silent_drop_intro _ (reach_up link_sites (s_func (site_of "ncmpio_header_put.c:ncmpio_write_header:MPI_File_write_at_all#1" io_sites)))); vm_compute; reflexivity. Qed.
+
+Lemma nsd_ncmpio_write_header__MPI_File_write_at : no_silent_drop link_sites (site_of "ncmpio_header_put.c:ncmpio_write_header:MPI_File_write_at" io_sites).
+Proof. apply (no_silent_drop_intro _ (reach_up link_sites (s_func (site_of "ncmpio_header_put.c:ncmpio_write_header:MPI_File_write_at" io_sites)))); vm_compute; reflexivity. Qed.
+
+Lemma nsd_ncmpio_write_header__MPI_File_write_at_all_2_refuted : ~ no_silent_drop link_sites (site_of "ncmpio_header_put.c:ncmpio_write_header:MPI_File_write_at_all#2" io_sites).
+Proof. apply (refute_by_class (site_of "ncmpio_header_put.c:ncmpio_write_header:MPI_File_write_at_all#2" io_sites) E_NO_SPACE). vm_compute. reflexivity. Qed.
+
+Lemma nsd_ncmpio_write_header__MPI_File_write_at_all_2_drops : drops_classes (site_of "ncmpio_header_put.c:ncmpio_write_header:MPI_File_write_at_all#2" io_sites) [E_BUFFER; E_COUNT; E_TYPE; E_TAG; E_COMM; E_RANK; E_REQUEST; E_ROOT; E_GROUP; E_OP; E_TOPOLOGY; E_DIMS; E_ARG; E_UNKNOWN; E_TRUNCATE; E_OTHER; E_INTERN; E_IN_STATUS; E_PENDING; E_ACCESS; E_AMODE; E_ASSERT; E_BAD_FILE; E_BASE; E_CONVERSION; E_DISP; E_DUP_DATAREP; E_FILE_EXISTS; E_FILE_IN_USE; E_FILE; E_INFO_KEY; E_INFO_NOKEY; E_INFO_VALUE; E_INFO; E_IO; E_KEYVAL; E_LOCKTYPE; E_NAME; E_NO_MEM; E_NOT_SAME; E_NO_SPACE; E_NO_SUCH_FILE; E_PORT; E_QUOTA; E_READ_ONLY; E_RMA_CONFLICT; E_RMA_SYNC; E_SERVICE; E_SIZE; E_SPAWN; E_UNSUPPORTED_DATAREP; E_UNSUPPORTED_OPERATION; E_WIN; E_RMA_RANGE; E_RMA_ATTACH; E_RMA_FLAVOR; E_RMA_SHARED; E_ANY_OTHER_CLASS].
+Proof. apply drops_classes_intro; vm_compute; reflexivity. Qed.
+
+Lemma nsd_ncmpio_write_header__MPI_File_write_at_all_2_partial : no_silent_drop_except link_sites (site_of "ncmpio_header_put.c:ncmpio_write_header:MPI_File_write_at_all#2" io_sites) [E_BUFFER; E_COUNT; E_TYPE; E_TAG; E_COMM; E_RANK; E_REQUEST; E_ROOT; E_GROUP; E_OP; E_TOPOLOGY; E_DIMS; E_ARG; E_UNKNOWN; E_TRUNCATE; E_OTHER; E_INTERN; E_IN_STATUS; E_PENDING; E_ACCESS; E_AMODE; E_ASSERT; E_BAD_FILE; E_BASE; E_CONVERSION; E_DISP; E_DUP_DATAREP; E_FILE_EXISTS; E_FILE_IN_USE; E_FILE; E_INFO_KEY; E_INFO_NOKEY; E_INFO_VALUE; E_INFO; E_IO; E_KEYVAL; E_LOCKTYPE; E_NAME; E_NO_MEM; E_NOT_SAME; E_NO_SPACE; E_NO_SUCH_FILE; E_PORT; E_QUOTA; E_READ_ONLY; E_RMA_CONFLICT; E_RMA_SYNC; E_SERVICE; E_SIZE; E_SPAWN; E_UNSUPPORTED_DATAREP; E_UNSUPPORTED_OPERATION; E_WIN; E_RMA_RANGE; E_RMA_ATTACH; E_RMA_FLAVOR; E_RMA_SHARED; E_ANY_OTHER_CLASS] [].
+Proof. apply (no_silent_drop_except_nolinks_intro _ _ (reach_up link_sites (s_func (site_of "ncmpio_header_put.c:ncmpio_write_header:MPI_File_write_at_all#2" io_sites)))); vm_compute; reflexivity. Qed.
+
+Lemma nsd_ncmpio_write_numrecs__MPI_File_write_at_all_1_refuted : ~ no_silent_drop link_sites (site_of "ncmpio_sync.c:ncmpio_write_numrecs:MPI_File_write_at_all#1" io_sites).
+Proof. apply (refute_by_class (site_of "ncmpio_sync.c:ncmpio_write_numrecs:MPI_File_write_at_all#1" io_sites) E_NO_SPACE). vm_compute. reflexivity. Qed.
+
+Lemma nsd_ncmpio_write_numrecs__MPI_File_write_at_all_1_drops : drops_classes (site_of "ncmpio_sync.c:ncmpio_write_numrecs:MPI_File_write_at_all#1" io_sites) [E_BUFFER; E_COUNT; E_TYPE; E_TAG; E_COMM; E_RANK; E_REQUEST; E_ROOT; E_GROUP; E_OP; E_TOPOLOGY; E_DIMS; E_ARG; E_UNKNOWN; E_TRUNCATE; E_OTHER; E_INTERN; E_IN_STATUS; E_PENDING; E_ACCESS; E_AMODE; E_ASSERT; E_BAD_FILE; E_BASE; E_CONVERSION; E_DISP; E_DUP_DATAREP; E_FILE_EXISTS; E_FILE_IN_USE; E_FILE; E_INFO_KEY; E_INFO_NOKEY; E_INFO_VALUE; E_INFO; E_IO; E_KEYVAL; E_LOCKTYPE; E_NAME; E_NO_MEM; E_NOT_SAME; E_NO_SPACE; E_NO_SUCH_FILE; E_PORT; E_QUOTA; E_READ_ONLY; E_RMA_CONFLICT; E_RMA_SYNC; E_SERVICE; E_SIZE; E_SPAWN; E_UNSUPPORTED_DATAREP; E_UNSUPPORTED_OPERATION; E_WIN; E_RMA_RANGE; E_RMA_ATTACH; E_RMA_FLAVOR; E_RMA_SHARED; E_ANY_OTHER_CLASS].
+Proof. apply drops_classes_intro; vm_compute; reflexivity. Qed.
+
+Lemma nsd_ncmpio_write_numrecs__MPI_File_write_at_all_1_partial : no_silent_drop_except link_sites (site_of "ncmpio_sync.c:ncmpio_write_numrecs:MPI_File_write_at_all#1" io_sites) [E_BUFFER; E_COUNT; E_TYPE; E_TAG; E_COMM; E_RANK; E_REQUEST; E_ROOT; E_GROUP; E_OP; E_TOPOLOGY; E_DIMS; E_ARG; E_UNKNOWN; E_TRUNCATE; E_OTHER; E_INTERN; E_IN_STATUS; E_PENDING; E_ACCESS; E_AMODE; E_ASSERT; E_BAD_FILE; E_BASE; E_CONVERSION; E_DISP; E_DUP_DATAREP; E_FILE_EXISTS; E_FILE_IN_USE; E_FILE; E_INFO_KEY; E_INFO_NOKEY; E_INFO_VALUE; E_INFO; E_IO; E_KEYVAL; E_LOCKTYPE; E_NAME; E_NO_MEM; E_NOT_SAME; E_NO_SPACE; E_NO_SUCH_FILE; E_PORT; E_QUOTA; E_READ_ONLY; E_RMA_CONFLICT; E_RMA_SYNC; E_SERVICE; E_SIZE; E_SPAWN; E_UNSUPPORTED_DATAREP; E_UNSUPPORTED_OPERATION; E_WIN; E_RMA_RANGE; E_RMA_ATTACH; E_RMA_FLAVOR; E_RMA_SHARED; E_ANY_OTHER_CLASS] bad_link_ids.
+Proof. apply no_silent_drop_except_intro; vm_compute; reflexivity. Qed.
+
+Lemma nsd_ncmpio_write_numrecs__MPI_File_write_at_all_2_refuted : ~ no_silent_drop link_sites (site_of "ncmpio_sync.c:ncmpio_write_numrecs:MPI_File_write_at_all#2" io_sites).
+Proof. apply (refute_by_class (site_of "ncmpio_sync.c:ncmpio_write_numrecs:MPI_File_write_at_all#2" io_sites) E_NO_SPACE). vm_compute. reflexivity. Qed.
+
+Lemma nsd_ncmpio_write_numrecs__MPI_File_write_at_all_2_drops : drops_classes (site_of "ncmpio_sync.c:ncmpio_write_numrecs:MPI_File_write_at_all#2" io_sites) [E_ACCESS; E_AMODE; E_BAD_FILE; E_FILE_EXISTS; E_NOT_SAME; E_NO_SPACE; E_NO_SUCH_FILE; E_QUOTA; E_READ_ONLY].
+Proof. apply drops_classes_intro; vm_compute; reflexivity. Qed.
+
+Lemma nsd_ncmpio_write_numrecs__MPI_File_write_at_all_2_partial : no_silent_drop_except link_sites (site_of "ncmpio_sync.c:ncmpio_write_numrecs:MPI_File_write_at_all#2" io_sites) [E_ACCESS; E_AMODE; E_BAD_FILE; E_FILE_EXISTS; E_NOT_SAME; E_NO_SPACE; E_NO_SUCH_FILE; E_QUOTA; E_READ_ONLY] bad_link_ids.
+Proof. apply no_silent_drop_except_intro; vm_compute; reflexivity. Qed.
+
+Lemma nsd_ncmpio_write_numrecs__MPI_File_write_at_refuted : ~ no_silent_drop link_sites (site_of "ncmpio_sync.c:ncmpio_write_numrecs:MPI_File_write_at" io_sites).
+Proof. apply (refute_by_class (site_of "ncmpio_sync.c:ncmpio_write_numrecs:MPI_File_write_at" io_sites) E_NO_SPACE). vm_compute. reflexivity. Qed.
+
+Lemma nsd_ncmpio_write_numrecs__MPI_File_write_at_drops : drops_classes (site_of "ncmpio_sync.c:ncmpio_write_numrecs:MPI_File_write_at" io_sites) [E_ACCESS; E_AMODE; E_BAD_FILE; E_FILE_EXISTS; E_NOT_SAME; E_NO_SPACE; E_NO_SUCH_FILE; E_QUOTA; E_READ_ONLY].
+Proof. apply drops_classes_intro; vm_compute; reflexivity. Qed.
+
+Lemma nsd_ncmpio_write_numrecs__MPI_File_write_at_partial : no_silent_drop_except link_sites (site_of "ncmpio_sync.c:ncmpio_write_numrecs:MPI_File_write_at" io_sites) [E_ACCESS; E_AMODE; E_BAD_FILE; E_FILE_EXISTS; E_NOT_SAME; E_NO_SPACE; E_NO_SUCH_FILE; E_QUOTA; E_READ_ONLY] bad_link_ids.
+Proof. apply no_silent_drop_except_intro; vm_compute; reflexivity. Qed.
+
+Lemma nsd_ncmpio_getput_zero_req__MPI_File_read_all_refuted : ~ no_silent_drop link_sites (site_of "ncmpio_wait.c:ncmpio_getput_zero_req:MPI_File_read_all" io_sites).
+Proof.
+  apply (refute_by_link (site_of "ncmpio_wait.c:ncmpio_getput_zero_req:MPI_File_read_all" io_sites) (sites_of ["ncmpio_wait.c:req_aggregation:ncmpio_getput_zero_req"; "ncmpio_wait.c:wait_getput:req_aggregation"] link_sites) (site_of "ncmpio_wait.c:req_commit:wait_getput#1" link_sites)).
+  - apply site_of_In; vm_compute; reflexivity.
+  - vm_compute; reflexivity.
+  - vm_compute; reflexivity.
+  - apply sites_of_In; vm_compute; reflexivity.
+Qed.
+
+Lemma nsd_ncmpio_getput_zero_req__MPI_File_read_all_partial : no_silent_drop_except link_sites (site_of "ncmpio_wait.c:ncmpio_getput_zero_req:MPI_File_read_all" io_sites) [] bad_link_ids.
+Proof. apply no_silent_drop_except_intro; vm_compute; reflexivity. Qed.
+
+Lemma nsd_ncmpio_getput_zero_req__MPI_File_read_refuted : ~ no_silent_drop link_sites (site_of "ncmpio_wait.c:ncmpio_getput_zero_req:MPI_File_read" io_sites).
+Proof.
+  apply (refute_by_link (site_of "ncmpio_wait.c:ncmpio_getput_zero_req:MPI_File_read" io_sites) (sites_of ["ncmpio_wait.c:req_aggregation:ncmpio_getput_zero_req"; "ncmpio_wait.c:wait_getput:req_aggregation"] link_sites) (site_of "ncmpio_wait.c:req_commit:wait_getput#1" link_sites)).
+  - apply site_of_In; vm_compute; reflexivity.
+  - vm_compute; reflexivity.
+  - vm_compute; reflexivity.
+  - apply sites_of_In; vm_compute; reflexivity.
+Qed.
+
+Lemma nsd_ncmpio_getput_zero_req__MPI_File_read_partial : no_silent_drop_except link_sites (site_of "ncmpio_wait.c:ncmpio_getput_zero_req:MPI_File_read" io_sites) [] bad_link_ids.
+Proof. apply no_silent_drop_except_intro; vm_compute; reflexivity. Qed.
+
+Lemma nsd_ncmpio_getput_zero_req__MPI_File_write_all_refuted : ~ no_silent_drop link_sites (site_of "ncmpio_wait.c:ncmpio_getput_zero_req:MPI_File_write_all" io_sites).
+Proof.
+  apply (refute_by_link (site_of "ncmpio_wait.c:ncmpio_getput_zero_req:MPI_File_write_all" io_sites) (sites_of ["ncmpio_wait.c:req_aggregation:ncmpio_getput_zero_req"; "ncmpio_wait.c:wait_getput:req_aggregation"] link_sites) (site_of "ncmpio_wait.c:req_commit:wait_getput#1" link_sites)).
+  - apply site_of_In; vm_compute; reflexivity.
+  - vm_compute; reflexivity.
+  - vm_compute; reflexivity.
+  - apply sites_of_In; vm_compute; reflexivity.
+Qed.
+
+Lemma nsd_ncmpio_getput_zero_req__MPI_File_write_all_partial : no_silent_drop_except link_sites (site_of "ncmpio_wait.c:ncmpio_getput_zero_req:MPI_File_write_all" io_sites) [] bad_link_ids.
+Proof. apply no_silent_drop_except_intro; vm_compute; reflexivity. Qed.
+
+Lemma nsd_ncmpio_getput_zero_req__MPI_File_write_refuted : ~ no_silent_drop link_sites (site_of "ncmpio_wait.c:ncmpio_getput_zero_req:MPI_File_write" io_sites).
+Proof.
+  apply (refute_by_link (site_of "ncmpio_wait.c:ncmpio_getput_zero_req:MPI_File_write" io_sites) (sites_of ["ncmpio_wait.c:req_aggregation:ncmpio_getput_zero_req"; "ncmpio_wait.c:wait_getput:req_aggregation"] link_sites) (site_of "ncmpio_wait.c:req_commit:wait_getput#1" link_sites)).
+  - apply site_of_In; vm_compute; reflexivity.
+  - vm_compute; reflexivity.
+  - vm_compute; reflexivity.
+  - apply sites_of_In; vm_compute; reflexivity.
+Qed.
+
+Lemma nsd_ncmpio_getput_zero_req__MPI_File_write_partial : no_silent_drop_except link_sites (site_of "ncmpio_wait.c:ncmpio_getput_zero_req:MPI_File_write" io_sites) [] bad_link_ids.
+Proof. apply no_silent_drop_except_intro; vm_compute; reflexivity. Qed.
+
+Lemma chain_enddef_header_write : chain_reaches_api link_sites (chain_of "enddef: header write").
+Proof. apply chain_reaches_api_intro; [vm_compute; reflexivity | apply forallb_hops_bad; vm_compute; reflexivity]. Qed.
+
+Lemma chain__enddef_header_write : chain_reaches_api link_sites (chain_of "_enddef: header write").
+Proof. apply chain_reaches_api_intro; [vm_compute; reflexivity | apply forallb_hops_bad; vm_compute; reflexivity]. Qed.
+
+Lemma chain_put_collective_numrecs : chain_reaches_api link_sites (chain_of "put (collective): numrecs").
+Proof. apply chain_reaches_api_intro; [vm_compute; reflexivity | apply forallb_hops_bad; vm_compute; reflexivity]. Qed.
+
+Lemma chain_sync_numrecs_numrecs : chain_reaches_api link_sites (chain_of "sync_numrecs: numrecs").
+Proof. apply chain_reaches_api_intro; [vm_compute; reflexivity | apply forallb_hops_bad; vm_compute; reflexivity]. Qed.
+
+Lemma chain_sync_numrecs : chain_reaches_api link_sites (chain_of "sync: numrecs").
+Proof. apply chain_reaches_api_intro; [vm_compute; reflexivity | apply forallb_hops_bad; vm_compute; reflexivity]. Qed.
+
+Lemma chain_end_indep_data_numrecs : chain_reaches_api link_sites (chain_of "end_indep_data: numrecs").
+Proof. apply chain_reaches_api_intro; [vm_compute; reflexivity | apply forallb_hops_bad; vm_compute; reflexivity]. Qed.
+
+Lemma chain_close_independent_mode_numrecs : chain_reaches_api link_sites (chain_of "close (independent mode): numrecs").
+Proof. apply chain_reaches_api_intro; [vm_compute; reflexivity | apply forallb_hops_bad; vm_compute; reflexivity]. Qed.
+
+Lemma chain_wait_all_numrecs_refuted : ~ chain_reaches_api link_sites (chain_of "wait_all: numrecs").
+Proof. apply (chain_refute (chain_of "wait_all: numrecs") 2 "req_commit" "wait_getput"); vm_compute; reflexivity. Qed.
+
+Lemma chain_wait_all_numrecs_partial : chain_reaches_api_except link_sites (chain_of "wait_all: numrecs") bad_link_ids.
+Proof. apply chain_reaches_api_except_intro; vm_compute; reflexivity. Qed.
+
+Lemma chain_enddef_after_redef_move_fixed : chain_reaches_api link_sites (chain_of "enddef after redef: move fixed").
+Proof. apply chain_reaches_api_intro; [vm_compute; reflexivity | apply forallb_hops_bad; vm_compute; reflexivity]. Qed.
+
+Lemma chain_enddef_after_redef_move_records : chain_reaches_api link_sites (chain_of "enddef after redef: move records").
+Proof. apply chain_reaches_api_intro; [vm_compute; reflexivity | apply forallb_hops_bad; vm_compute; reflexivity]. Qed.
+
+Lemma chain_enddef_fill_new_variables : chain_reaches_api link_sites (chain_of "enddef: fill new variables").
+Proof. apply chain_reaches_api_intro; [vm_compute; reflexivity | apply forallb_hops_bad; vm_compute; reflexivity]. Qed.
+
+Lemma chain_fill_var_rec : chain_reaches_api link_sites (chain_of "fill_var_rec").
+Proof. apply chain_reaches_api_intro; [vm_compute; reflexivity | apply forallb_hops_bad; vm_compute; reflexivity]. Qed.
+
+Lemma chain_fill_var_rec_numrecs : chain_reaches_api link_sites (chain_of "fill_var_rec: numrecs").
+Proof. apply chain_reaches_api_intro; [vm_compute; reflexivity | apply forallb_hops_bad; vm_compute; reflexivity]. Qed.
+
+Lemma chain_put_blocking : chain_reaches_api link_sites (chain_of "put (blocking)").
+Proof. apply chain_reaches_api_intro; [vm_compute; reflexivity | apply forallb_hops_bad; vm_compute; reflexivity]. Qed.
+
+Lemma chain_put_independent : chain_reaches_api link_sites (chain_of "put (independent)").
+Proof. apply chain_reaches_api_intro; [vm_compute; reflexivity | apply forallb_hops_bad; vm_compute; reflexivity]. Qed.
+
+Lemma chain_get_blocking : chain_reaches_api link_sites (chain_of "get (blocking)").
+Proof. apply chain_reaches_api_intro; [vm_compute; reflexivity | apply forallb_hops_bad; vm_compute; reflexivity]. Qed.
+
+Lemma chain_get_independent : chain_reaches_api link_sites (chain_of "get (independent)").
+Proof. apply chain_reaches_api_intro; [vm_compute; reflexivity | apply forallb_hops_bad; vm_compute; reflexivity]. Qed.
+
+Lemma chain_put_zero_length_participation : chain_reaches_api link_sites (chain_of "put, zero-length participation").
+Proof. apply chain_reaches_api_intro; [vm_compute; reflexivity | apply forallb_hops_bad; vm_compute; reflexivity]. Qed.
+
+Lemma chain_get_zero_length_participation : chain_reaches_api link_sites (chain_of "get, zero-length participation").
+Proof. apply chain_reaches_api_intro; [vm_compute; reflexivity | apply forallb_hops_bad; vm_compute; reflexivity]. Qed.
+
+Lemma chain_wait_all_refuted : ~ chain_reaches_api link_sites (chain_of "wait_all").
+Proof. apply (chain_refute (chain_of "wait_all") 2 "req_commit" "wait_getput"); vm_compute; reflexivity. Qed.
+
+Lemma chain_wait_all_partial : chain_reaches_api_except link_sites (chain_of "wait_all") bad_link_ids.
+Proof. apply chain_reaches_api_except_intro; vm_compute; reflexivity. Qed.
+
+Lemma chain_wait_all_one_request_per_call_refuted : ~ chain_reaches_api link_sites (chain_of "wait_all (one request per call)").
+Proof. apply (chain_refute (chain_of "wait_all (one request per call)") 2 "req_commit" "wait_getput"); vm_compute; reflexivity. Qed.
+
+Lemma chain_wait_all_one_request_per_call_partial : chain_reaches_api_except link_sites (chain_of "wait_all (one request per call)") bad_link_ids.
+Proof. apply chain_reaches_api_except_intro; vm_compute; reflexivity. Qed.
+
+Lemma chain_wait_independent_refuted : ~ chain_reaches_api link_sites (chain_of "wait (independent)").
+Proof. apply (chain_refute (chain_of "wait (independent)") 2 "req_commit" "wait_getput"); vm_compute; reflexivity. Qed.
+
+Lemma chain_wait_independent_partial : chain_reaches_api_except link_sites (chain_of "wait (independent)") bad_link_ids.
+Proof. apply chain_reaches_api_except_intro; vm_compute; reflexivity. Qed.
+
+Lemma chain_wait_all_zero_length_participation_refuted : ~ chain_reaches_api link_sites (chain_of "wait_all, zero-length participation").
+Proof. apply (chain_refute (chain_of "wait_all, zero-length participation") 2 "req_commit" "wait_getput"); vm_compute; reflexivity. Qed.
+
+Lemma chain_wait_all_zero_length_participation_partial : chain_reaches_api_except link_sites (chain_of "wait_all, zero-length participation") bad_link_ids.
+Proof. apply chain_reaches_api_except_intro; vm_compute; reflexivity. Qed.
+
+Lemma chain_open_header_read : chain_reaches_api link_sites (chain_of "open: header read").
+Proof. apply chain_reaches_api_intro; [vm_compute; reflexivity | apply forallb_hops_bad; vm_compute; reflexivity]. Qed.
+
+Lemma chain_open_header_read_variables_refuted : ~ chain_reaches_api link_sites (chain_of "open: header read (variables)").
+Proof. apply (chain_refute (chain_of "open: header read (variables)") 4 "hdr_get_NC_var" "hdr_get_uint32"); vm_compute; reflexivity. Qed.
+
+Lemma chain_open_header_read_variables_partial : chain_reaches_api_except link_sites (chain_of "open: header read (variables)") bad_link_ids.
+Proof. apply chain_reaches_api_except_intro; vm_compute; reflexivity. Qed.
+
+Lemma chain_put_att_in_data_mode_header_write : chain_reaches_api link_sites (chain_of "put_att in data mode: header write").
+Proof. apply chain_reaches_api_intro; [vm_compute; reflexivity | apply forallb_hops_bad; vm_compute; reflexivity]. Qed.
+
+Lemma chain_rename_var_in_data_mode_header_write : chain_reaches_api link_sites (chain_of "rename_var in data mode: header write").
+Proof. apply chain_reaches_api_intro; [vm_compute; reflexivity | apply forallb_hops_bad; vm_compute; reflexivity]. Qed.
+
